@@ -138,9 +138,20 @@ def gen_leaf(rng, nm, parent_cfg):
     if targets and rng.random() < 0.15:
         # a ref: its accessor is gated by the REF's own cfg and the blocks enclosing the REF, never by anything on the
         # target's path.  Register refs override the access to WO so that they add no read_all_registers statement
-        # (the model attaches only the accessor to a ref); block refs do not compile (D9).
+        # (the model attaches only the accessor to a ref).  Block refs (since /repo's repair of D9 they get an accessor
+        # and nothing else): gated by the ref's own cfg and the blocks enclosing the REF as well.
         kind, tname = rng.choice(targets)
-        ov = {"kind": kind, "address": nm.address()}
+        if kind == "block" and nm.n["blockrefs"] >= 5:
+            kind, tname = next((t for t in targets if t[0] != "block"), (None, None))
+            if kind is None:
+                return gen_leaf(rng, nm, parent_cfg) if rng.random() < 0.9 else adef.mk_buffer(nm.fresh("F"), nm.address(), cfg=cfg)
+        if kind == "block":
+            # the target's objects appear a second time at the ref's offset: distinct powers of two above every
+            # declared address keep all instances apart (sums of distinct powers are distinct)
+            ov = {"kind": kind, "address_offset": 1024 << nm.n["blockrefs"]}
+            nm.n["blockrefs"] += 1
+        else:
+            ov = {"kind": kind, "address": nm.address()}
         if kind == "register":
             ov["access"] = "WO"
         return adef.mk_ref(nm.fresh("Q"), tname, ov, cfg=pick_cfg(rng, 0.35, parent_cfg))
@@ -173,6 +184,9 @@ def gen_level(rng, nm, depth, maxdepth, parent_cfg, allow_empty):
             cfg = pick_cfg(rng, 0.6, parent_cfg)
             out.append(adef.mk_block(nm.fresh("B"), gen_level(rng, nm, depth + 1, maxdepth, cfg, True), cfg=cfg,
                                      address_offset=0))
+            # a completed block can be the target of a block ref declared later (never inside itself: no cycle)
+            if getattr(nm, "targets", None) is not None:
+                nm.targets.append(("block", out[-1]["name"]))
         else:
             out.append(gen_leaf(rng, nm, parent_cfg))
     return out
